@@ -120,3 +120,43 @@ impl<'a> ColumnProvider for SingleColumnProvider<'a> {
         &self.empty_keys
     }
 }
+/// The value of an aggregate (`$value`) together with the group key columns of its group,
+/// used when the expression around an aggregate is evaluated for a result row.
+pub struct AggregateResultColumnProvider<'a> {
+    empty_keys: Vec<String>,
+    value: &'a Value,
+    group_key_columns: Vec<(&'a str, &'a Value)>
+}
+
+impl<'a> AggregateResultColumnProvider<'a> {
+    pub fn new(value: &'a Value, group_key_columns: Vec<(&'a str, &'a Value)>) -> AggregateResultColumnProvider<'a> {
+        AggregateResultColumnProvider {
+            empty_keys: Vec::new(),
+            value,
+            group_key_columns
+        }
+    }
+}
+
+impl<'a> ColumnProvider for AggregateResultColumnProvider<'a> {
+    fn get(&self, scope: ColumnScope, name: &str) -> Option<&Value> {
+        match scope {
+            ColumnScope::AggregationValue if name == "$value" => Some(self.value),
+            ColumnScope::Table => {
+                self.group_key_columns
+                    .iter()
+                    .find(|(column, _)| *column == name)
+                    .map(|(_, value)| *value)
+            }
+            _ => None
+        }
+    }
+
+    fn add_key(&mut self, _: &str) {
+
+    }
+
+    fn keys(&self) -> &Vec<String> {
+        &self.empty_keys
+    }
+}
